@@ -4594,3 +4594,235 @@ def _block_shapes_ok(x):
         if len(got) != len(want) or any(not (isinstance(w, float) and math.isnan(w)) and g != w for g, w in zip(got, want)):
             return False
     return True
+
+
+# ---------------------------------------------------------------------------
+# C21: the Frisky records path computes what the dask graph computes
+# ---------------------------------------------------------------------------
+def _c21_refs(obj, out):
+    """keys (as strings) of the TaskRefs a record's arguments contain where Frisky resolves them: in lists / tuples and in
+    dict VALUES (documented in _frisky/graph_records.py: dict keys and sets are not searched)"""
+    from dask._task_spec import TaskRef
+    if isinstance(obj, TaskRef):
+        out.add(str(obj.key))
+    elif isinstance(obj, (list, tuple)):
+        for o in obj:
+            _c21_refs(o, out)
+    elif isinstance(obj, dict):
+        for o in obj.values():
+            _c21_refs(o, out)
+    return out
+
+
+def _c21_resolve(obj, results):
+    from dask._task_spec import TaskRef
+    if isinstance(obj, TaskRef):
+        return results[str(obj.key)]
+    if isinstance(obj, list):
+        return [_c21_resolve(o, results) for o in obj]
+    if isinstance(obj, tuple):
+        return tuple(_c21_resolve(o, results) for o in obj)
+    if isinstance(obj, dict):
+        return {k: _c21_resolve(v, results) for k, v in obj.items()}
+    return obj
+
+
+def _c21_execute(records, wanted):
+    """an in-process executor over (key, func, args, kwargs, deps) records: a record runs when the records named in its
+    deps have run (nothing else orders it), its TaskRefs are replaced by their results"""
+    by_key = {}
+    for r in records:
+        by_key.setdefault(r[0], r)
+    results = {}
+    state = {}
+    order = []
+    for root in wanted:
+        stack = [(root, False)]
+        while stack:
+            k, done = stack.pop()
+            if done:
+                order.append(k)
+                state[k] = 2
+                continue
+            if state.get(k):
+                if state[k] == 1:
+                    raise RuntimeError(f"cycle through {k}")
+                continue
+            state[k] = 1
+            stack.append((k, True))
+            for d in by_key[k][4]:
+                if state.get(d) != 2:
+                    stack.append((d, False))
+    for k in order:
+        key, func, args, kwargs, deps = by_key[k]
+        avail = {d: results[d] for d in deps}
+        results[k] = func(*_c21_resolve(args, avail), **_c21_resolve(kwargs, avail))
+    return results
+
+
+class frisky_records_agree:
+    """the task records of __frisky_graph__() (and the plain records of __frisky_records_chunks__() when no layer goes
+    binary) either are declined with NotImplementedError or form a complete graph: no dangling dependency, every output key of
+    __frisky_output_keys__() defined, every TaskRef a record's arguments contain declared among its deps, one definition per
+    key; executed by an in-process executor that orders records by their declared deps only, they compute the block values
+    __dask_graph__() computes. Two collections over the same source walked with a shared `seen` set together form a complete
+    graph computing both"""
+    bounded_only = True
+    params = {"prog": "const", "tier": "const"}
+    scope = ("catalogue and rewrite-target programs (the native extension is not built here, so every layer goes through the "
+             "generic GraphRecordsLayer translation, which is what the property says is trusted); every program also paired with "
+             "its successor in the catalogue under a shared `seen` set")
+
+    def real():
+        return lambda collection, seen=None: None
+
+    def call(fn, prog, tier):
+        import dask
+        import numpy as np
+        progs = _c09_programs(tier)
+        names = list(progs)
+        x = progs[prog]()[0]
+        out = {"declined": False, "problems": [], "values_ok": None, "chunks_path": None, "pair": None}
+
+        def analyse(records, outkeys, label):
+            keys = [r[0] for r in records]
+            produced = set(keys)
+            dup = sorted({k for k in keys if keys.count(k) > 1})[:3] if len(keys) != len(produced) else []
+            if dup:
+                defs = {}
+                for r in records:
+                    defs.setdefault(r[0], []).append(r)
+                if any(len({(repr(d[1]), repr(d[4])) for d in defs[k]}) > 1 for k in dup):
+                    out["problems"].append(f"{label}: key defined twice with different records: {dup[0]}")
+            dangling = sorted({d for r in records for d in r[4]} - produced)
+            if dangling:
+                out["problems"].append(f"{label}: dangling dependency {dangling[0]}")
+            missing = [k for k in outkeys if k not in produced]
+            if missing:
+                out["problems"].append(f"{label}: output key not defined {missing[0]}")
+            for r in records:
+                refs = _c21_refs(r[2], _c21_refs(r[3], set()))
+                undeclared = refs - set(r[4])
+                if undeclared:
+                    out["problems"].append(f"{label}: record {r[0]} uses {sorted(undeclared)[0]} without declaring it")
+                    break
+            return not (dangling or missing)
+
+        def blocks(c):
+            ks = list(dask.core.flatten(c.__dask_keys__()))
+            return [np.asarray(v) for v in dask.get(dict(c.__dask_graph__()), ks)]
+
+        try:
+            want = blocks(x)
+        except Exception:
+            return {"skip": True}
+        try:
+            recs = x.__frisky_graph__()
+        except NotImplementedError:
+            out["declined"] = True
+            recs = None
+        if recs is not None:
+            outkeys = x.__frisky_output_keys__()
+            if analyse(recs, outkeys, "graph"):
+                try:
+                    res = _c21_execute(recs, outkeys)
+                    got = [np.asarray(res[k]) for k in outkeys]
+                    out["values_ok"] = len(got) == len(want) and all(_same(g, w) for g, w in zip(got, want))
+                except Exception as ex:
+                    out["problems"].append(f"graph: executing the records raised {type(ex).__name__}: {str(ex)[:80]}")
+        try:
+            chunks, recs2, groups = x.__frisky_records_chunks__()
+            if chunks:
+                out["chunks_path"] = "binary chunks present (not decoded here)"
+            else:
+                outkeys = x.__frisky_output_keys__()
+                if analyse(recs2, outkeys, "records_chunks"):
+                    res = _c21_execute(recs2, outkeys)
+                    got = [np.asarray(res[k]) for k in outkeys]
+                    out["chunks_path"] = len(got) == len(want) and all(_same(g, w) for g, w in zip(got, want))
+        except NotImplementedError:
+            out["chunks_path"] = "declined"
+        except Exception as ex:
+            out["problems"].append(f"records_chunks: {type(ex).__name__}: {str(ex)[:80]}")
+        # a second collection over (mostly) the same source, walked with a shared `seen` set
+        nxt = names[(names.index(prog) + 1) % len(names)]
+        try:
+            y = progs[nxt]()[0]
+            wy = blocks(y)
+            seen = set()
+            ra = x.__frisky_graph__(seen=seen)
+            rb = y.__frisky_graph__(seen=seen)
+            union = list(ra) + list(rb)
+            ok = analyse(union, x.__frisky_output_keys__() + y.__frisky_output_keys__(), "shared-seen")
+            if ok:
+                res = _c21_execute(union, x.__frisky_output_keys__() + y.__frisky_output_keys__())
+                gx = [np.asarray(res[k]) for k in x.__frisky_output_keys__()]
+                gy = [np.asarray(res[k]) for k in y.__frisky_output_keys__()]
+                out["pair"] = all(_same(g, w) for g, w in zip(gx, want)) and all(_same(g, w) for g, w in zip(gy, wy)) and len(gy) == len(wy)
+        except NotImplementedError:
+            out["pair"] = "declined"
+        except Exception as ex:
+            out["pair"] = f"ERR {type(ex).__name__}: {str(ex)[:80]}"
+        return out
+
+    def requires(prog, tier):
+        return True
+
+    def ensures(result, prog, tier):
+        if result.get("skip"):
+            return {"program-computes": True}
+        return {"records-are-declined-or-complete-and-well-formed": result["problems"] == [],
+                "records-compute-the-dask-graphs-blocks": result["values_ok"] in (True, None),
+                "plain-records-of-the-chunks-path-compute-them-too": result["chunks_path"] in (True, None, "declined") or isinstance(result["chunks_path"], str) and result["chunks_path"].startswith("binary"),
+                "collections-sharing-a-seen-set-form-one-complete-graph": result["pair"] in (True, None, "declined")}
+
+    def domain(tier, rng):
+        raise NotImplementedError
+
+
+_C21_SHARDS = 10
+
+
+def _c21_embedded(name):
+    """programs that hand a dask collection / delayed value to a block function inside its arguments (F51)"""
+    return "<" in name and "dask" in name or "delayed" in name or "swv reduction>" in name
+
+
+def _c21_plain(tier):
+    """the programs of the main contract: those of F51 are left out, and so is the predecessor of each (its shared-`seen`
+    partner would be an F51 program)"""
+    names = list(_c09_programs(tier))
+    skip = set()
+    for i, n in enumerate(names):
+        if _c21_embedded(n):
+            skip.add(n)
+            skip.add(names[i - 1])
+    return [n for n in names if n not in skip]
+
+
+def _c21_shard(k):
+    def domain(tier, rng):
+        for i, n in enumerate(_c21_plain(tier)):
+            if i % _C21_SHARDS == k:
+                yield {"prog": n, "tier": tier}
+    cls = type(f"frisky_records_agree_{k}", (frisky_records_agree,), {"domain": domain,
+               "__doc__": frisky_records_agree.__doc__ + f" (shard {k} of {_C21_SHARDS})"})
+    return contract("dask_array/_frisky/collect.py::collect_task_records", spec=f"records-compute-the-dask-graph-{k}", props=["C21"])(cls)
+
+
+_frisky_shards = [_c21_shard(k) for k in range(_C21_SHARDS)]
+
+
+@contract("dask_array/_frisky/collect.py::collect_record_chunks", spec="embedded-collections-declined-or-complete", props=["C21"])
+class frisky_records_embedded(frisky_records_agree):
+    """the same for programs that hand a dask collection or a delayed value to a block function inside its arguments (known
+    finding F51: the collection's fused tasks are inlined into the Blockwise layer, the generic translation lifts the inner
+    tasks of a fused `_execute_subgraph` out of their sub-graph, and their references to the sub-graph's internal keys become
+    dangling dependencies; __frisky_graph__() notices and declines, but __frisky_records_chunks__() and the shared-`seen`
+    walk hand the incomplete records on -- completeness is delegated to the caller there)"""
+    scope = "catalogue / rewrite-target programs with a dask collection or delayed value embedded in a block function's arguments"
+
+    def domain(tier, rng):
+        for n in _c09_programs(tier):
+            if _c21_embedded(n):
+                yield {"prog": n, "tier": tier}
